@@ -4,6 +4,7 @@ import (
 	"context"
 	"errors"
 	"fmt"
+	"github.com/ProtonMail/gluon/connector"
 	"io"
 	"io/fs"
 	"time"
@@ -27,6 +28,7 @@ type verifConn struct {
 	calls       []string
 	nextID      int
 	literals    map[imap.MessageID][]byte // what GetMessageLiteral can serve
+	lastErr     error                     // the error of the last injected failure
 	sizeErr     error                     // when set, CreateMessage failures use this error (e.g. connector.ErrMessageSizeExceedsLimits)
 }
 
@@ -35,6 +37,9 @@ func (c *verifConn) fail(op string) bool {
 		c.faultBudget--
 		c.faults++
 		c.calls = append(c.calls, "FAIL "+op)
+		// which error the remote answers with: any of its documented sentinels (other than the size error, which
+		// CreateMessage selects itself) or an undocumented one - "rejects it for any reason other than size"
+		c.lastErr = []error{errVerifRemote, fmt.Errorf("remote: %w", connector.ErrOperationNotAllowed), connector.ErrOperationNotAllowed}[vsymChoice("connErrKind", 3)]
 		return true
 	}
 	c.calls = append(c.calls, op)
@@ -47,7 +52,7 @@ func (c *verifConn) ClearAllConnMetadata()                      {}
 
 func (c *verifConn) CreateMailbox(ctx context.Context, tx db.Transaction, name []string) ([]Update, imap.Mailbox, error) {
 	if c.fail("CreateMailbox") {
-		return nil, imap.Mailbox{}, errVerifRemote
+		return nil, imap.Mailbox{}, c.lastErr
 	}
 	c.nextID++
 	return nil, imap.Mailbox{ID: imap.MailboxID(fmt.Sprintf("mb-%d", c.nextID)), Name: name,
@@ -55,19 +60,19 @@ func (c *verifConn) CreateMailbox(ctx context.Context, tx db.Transaction, name [
 }
 func (c *verifConn) UpdateMailbox(ctx context.Context, tx db.Transaction, mboxID imap.MailboxID, newName []string) ([]Update, error) {
 	if c.fail("UpdateMailbox") {
-		return nil, errVerifRemote
+		return nil, c.lastErr
 	}
 	return nil, nil
 }
 func (c *verifConn) DeleteMailbox(ctx context.Context, tx db.Transaction, mboxID imap.MailboxID) ([]Update, error) {
 	if c.fail("DeleteMailbox") {
-		return nil, errVerifRemote
+		return nil, c.lastErr
 	}
 	return nil, nil
 }
 func (c *verifConn) CreateMessage(ctx context.Context, tx db.Transaction, mboxID imap.MailboxID, literal []byte, flags imap.FlagSet, date time.Time) ([]Update, imap.InternalMessageID, imap.Message, []byte, error) {
 	if c.fail("CreateMessage") {
-		err := errVerifRemote
+		err := c.lastErr
 		if c.sizeErr != nil && vsymBool("connSizeErr") {
 			err = c.sizeErr
 		}
@@ -84,31 +89,31 @@ func (c *verifConn) GetMessageLiteral(ctx context.Context, id imap.MessageID) ([
 }
 func (c *verifConn) AddMessagesToMailbox(ctx context.Context, tx db.Transaction, messageIDs []imap.MessageID, mboxID imap.MailboxID) ([]Update, error) {
 	if c.fail("AddMessagesToMailbox") {
-		return nil, errVerifRemote
+		return nil, c.lastErr
 	}
 	return nil, nil
 }
 func (c *verifConn) RemoveMessagesFromMailbox(ctx context.Context, tx db.Transaction, messageIDs []imap.MessageID, mboxID imap.MailboxID) ([]Update, error) {
 	if c.fail("RemoveMessagesFromMailbox") {
-		return nil, errVerifRemote
+		return nil, c.lastErr
 	}
 	return nil, nil
 }
 func (c *verifConn) MoveMessagesFromMailbox(ctx context.Context, tx db.Transaction, messageIDs []imap.MessageID, mboxFromID imap.MailboxID, mboxToID imap.MailboxID) ([]Update, bool, error) {
 	if c.fail("MoveMessagesFromMailbox") {
-		return nil, false, errVerifRemote
+		return nil, false, c.lastErr
 	}
 	return nil, true, nil
 }
 func (c *verifConn) SetMessagesSeen(ctx context.Context, tx db.Transaction, messageIDs []imap.MessageID, seen bool) ([]Update, error) {
 	if c.fail("SetMessagesSeen") {
-		return nil, errVerifRemote
+		return nil, c.lastErr
 	}
 	return nil, nil
 }
 func (c *verifConn) SetMessagesFlagged(ctx context.Context, tx db.Transaction, messageIDs []imap.MessageID, flagged bool) ([]Update, error) {
 	if c.fail("SetMessagesFlagged") {
-		return nil, errVerifRemote
+		return nil, c.lastErr
 	}
 	return nil, nil
 }
@@ -117,7 +122,7 @@ func (c *verifConn) GetMailboxVisibility(ctx context.Context, id imap.MailboxID)
 }
 func (c *verifConn) SetMessagesForwarded(ctx context.Context, tx db.Transaction, messageIDs []imap.MessageID, forwarded bool) ([]Update, error) {
 	if c.fail("SetMessagesForwarded") {
-		return nil, errVerifRemote
+		return nil, c.lastErr
 	}
 	return nil, nil
 }
